@@ -90,7 +90,7 @@ def solve_one(item):
     return {'index': idx, 'result': res, 'attempts': attempts, 'output': out if res != 'unsat' else ''}
 
 
-def discharge(vcs, timeout_s=30, jobs=None, want_model=True, progress=None, theory=None, fuel=1, retry=True):
+def discharge(vcs, timeout_s=30, jobs=None, want_model=True, progress=None, theory=None, fuel=1, retry=True, cross=False):
     """returns list of result dicts aligned with vcs (trivially true goals are not sent to a solver)"""
     jobs = jobs or min(16, os.cpu_count() or 4)
     results = [None] * len(vcs)
@@ -119,4 +119,16 @@ def discharge(vcs, timeout_s=30, jobs=None, want_model=True, progress=None, theo
                 prev = results[r['index']]
                 r['attempts'] = prev['attempts'] + [('retry',) + tuple(a[1:]) if False else a for a in r['attempts']]
                 results[r['index']] = r
+    if cross and Z3_OLD:
+        # thorough tier: every VC discharged by the primary back end is shown to the second one as well; `sat` there is a
+        # disagreement between solvers (reported as a checker problem), `unknown` is just recorded
+        def other(it):
+            i, text, _t, _w = it
+            r, dt, _o = run_cli([Z3_OLD, '-T:%d' % max(5, timeout_s // 3), 'smt.random_seed=3'], text, timeout_s)
+            return i, r, dt
+        todo = [it for it in items if results[it[0]]['result'] == 'unsat' and not results[it[0]]['attempts'][-1][0].startswith('z3-4')]
+        with ThreadPoolExecutor(max_workers=jobs) as ex:
+            for i, r, dt in ex.map(other, todo):
+                results[i]['cross'] = r
+                results[i]['attempts'] = results[i]['attempts'] + [('cross:z3-4.8.12', r, round(dt, 3))]
     return results
